@@ -139,15 +139,34 @@ Section Total.
 
   (* C14_render_total, heatmap: for every aggregator state and limits the table is written
      completely (no panic, header fuel not exhausted) *)
-  Theorem heat_write_table_total rlim clim h tm a :     exists st, heat_write_table col uni m rnd keys fmt rlim clim h tm a = Some (Ok st).
+  Theorem heat_write_table_rng_total mn mx rlim clim h tm a :
+    exists st, heat_write_table_rng col uni m rnd keys fmt mn mx rlim clim h tm a = Some (Ok st).
   Proof.
-    unfold heat_write_table, heat_legend.
-    destruct (legend_items_ok (a_min a) (a_max a) (keys (a_min a) (a_max a)) true) as [l El].
+    unfold heat_write_table_rng, heat_legend.
+    destruct (legend_items_ok mn mx (keys mn mx) true) as [l El].
     rewrite El. cbn [rbind].
     destruct (heat_header_ok col (hm_w h) clim (a_cols a)) as [hdr [Eh _]]. rewrite Eh.
-    match goal with |- context [heat_rows ?c ?u ?mm ?r ?i ?w ?mn ?mx ?cc ?rows ?t] =>
-      destruct (heat_rows_ok mn mx cc rows i w t) as [[w' tm2] Er]; rewrite Er end.
+    match goal with |- context [heat_rows ?c ?u ?mm ?r ?i ?w ?mn0 ?mx0 ?cc ?rows ?t] =>
+      destruct (heat_rows_ok mn0 mx0 cc rows i w t) as [[w' tm2] Er]; rewrite Er end.
     destruct (_ <? _)%nat; eexists; reflexivity.
+  Qed.
+  Theorem heat_write_table_total rlim clim h tm a :
+    exists st, heat_write_table col uni m rnd keys fmt rlim clim h tm a = Some (Ok st).
+  Proof. apply heat_write_table_rng_total. Qed.
+  (* UpdateMinMax (fixed bounds, any order of assignment of Scaler / Formatter) *)
+  Theorem heat_update_minmax_total h tm mn mx : okb (heat_update_minmax col uni m rnd keys fmt h tm mn mx).
+  Proof.
+    unfold heat_update_minmax, heat_legend.
+    destruct (legend_items_ok mn mx (keys mn mx) true) as [l El]. rewrite El. cbn [rbind]. apply okb_Ok.
+  Qed.
+  (* every cell of a heatmap row is the block of its value under the scaler and the range given to
+     THIS render *)
+  Theorem heat_row_blocks w mn mx name vals w' line : heat_row col uni m rnd w mn mx name vals = Ok (w', line) ->
+    exists cells, rconcat (fun v => heat_write col uni rnd (scale v mn mx)) vals = Ok cells /\
+                  line = wrap col col_Yellow name ++ rep (w' - str_len col name + 1) SP ++ cells.
+  Proof.
+    unfold heat_row. destruct (rconcat _ vals) as [cells|]; [|discriminate]. cbn [rbind].
+    intros E. inversion E; subst. exists cells. split; reflexivity.
   Qed.
 
   (* C14_more_counts, heatmap rows: when rows are hidden, the line after the last displayed row is
@@ -157,7 +176,7 @@ Section Total.
     (rlim < length (a_rows a))%nat ->
     nth_error tm' (2 + rlim) = Some (more_note col (Z.of_nat (length (skipn rlim (a_rows a))))).
   Proof.
-    unfold heat_write_table. intros E Hl.
+    unfold heat_write_table, heat_write_table_rng. intros E Hl.
     destruct (heat_legend _ _ _ _ _ _ _ _) as [leg|]; [|discriminate].
     destruct (heat_header _ _ _ _) as [[[cc hdr]|]|]; try discriminate.
     destruct (heat_rows _ _ _ _ _ _ _ _ _ _ _) as [[w' tm2]|]; [|discriminate].
